@@ -84,7 +84,7 @@ class Ast:
                 self._fix1(n['range'].get('begin'))
                 self._fix1(n['range'].get('end'))
         i = n.get('id')
-        if i and i not in self.byid:
+        if i and (i not in self.byid or ('inner' not in self.byid[i] and 'inner' in n and n.get('kind') == self.byid[i].get('kind'))):
             self.byid[i] = n
             self.parent[i] = p
         for c in n.get('inner', []):
